@@ -38,7 +38,11 @@ let () =
   let text = read_file Sys.argv.(2) in
   let oc = open_out_bin Sys.argv.(3) in
   (match Sys.argv.(1) with
-   | "pure" -> output_string oc (string_of_coq (Model.pure_file (coq_of_string text)))
+   | "pure" ->
+     (* line by line: the model functions are not tail recursive *)
+     List.iter (fun l ->
+         if l <> "" then output_string oc (string_of_coq (Model.pure_file (coq_of_string (l ^ "\n")))))
+       (String.split_on_char '\n' text)
    | "seq" ->
      (* case by case, to keep memory flat on big files *)
      let lines = String.split_on_char '\n' text in
